@@ -76,7 +76,8 @@ type vfC09Case struct {
 	Conf     vfStoreConf   `json:"conf"`
 	Sessions [][]vfStoreOp `json:"sessions"`
 	// the last reopen happens in a separate process (thorough tier only)
-	SeparateProcess bool `json:"separate_process,omitempty"`
+	SeparateProcess bool         `json:"separate_process,omitempty"`
+	ChildAdds       []vfStoreDoc `json:"child_adds,omitempty"` // documents the other process adds (explicit ids)
 }
 
 func vfGenStoreConf(rt *rapid.T) (vfStoreConf, *vfVecGen) {
@@ -118,7 +119,13 @@ func vfC09Gen(rt *rapid.T) vfC09Case {
 	c := vfC09Case{}
 	var g *vfVecGen
 	c.Conf, g = vfGenStoreConf(rt)
-	c.Conf.FlushThr = 1 << 40 // no background flushes here (C08 / C11 cover them)
+	// mostly no background flushes (C08 / C11 schedule them); in a quarter of the cases the worker runs
+	// free with a small threshold, so that Close finds flushes queued or under way
+	if rapid.IntRange(0, 3).Draw(rt, "background_flushes") > 0 {
+		c.Conf.FlushThr = 1 << 40
+	} else {
+		c.Conf.FlushThr = rapid.SampledFrom([]int64{1, 600, 2000}).Draw(rt, "c09_flush_threshold")
+	}
 	if c.Conf.VecKind == "ivf" && rapid.Bool().Draw(rt, "second_training_sample") {
 		c.Conf.TrainAlt = vfGenTrainingSet(rt, g, 6, 12, DistanceKind(c.Conf.Metric) == Cosine)
 	}
@@ -150,7 +157,23 @@ func vfC09Gen(rt *rapid.T) vfC09Case {
 		})
 		c.Sessions = append(c.Sessions, vfListOf(rt, "session_ops", opGen, 0, 24))
 	}
-	c.SeparateProcess = vfTierThorough() && rapid.IntRange(0, 9).Draw(rt, "separate_process") == 0
+	// one case in twenty (thorough: one in six): the last session runs in ANOTHER PROCESS, which checks
+	// what it finds, adds documents of its own, flushes, closes - and this process then reopens
+	nth := 19
+	if vfTierThorough() {
+		nth = 5
+	}
+	c.SeparateProcess = rapid.IntRange(0, nth).Draw(rt, "separate_process") == 0
+	if c.SeparateProcess {
+		for j := 0; j < rapid.IntRange(0, 4).Draw(rt, "child_adds"); j++ {
+			n++
+			d := vfGenStoreDoc(rt, g, n, explicit)
+			if d.ID == 0 { // explicit ids only: automatic ids restart in a new process
+				d.ID = uint32(1<<30 + 1<<20 + n)
+			}
+			c.ChildAdds = append(c.ChildAdds, *d)
+		}
+	}
 	return c
 }
 
@@ -455,6 +478,7 @@ func vfC09Run(c vfC09Case, ctx *vfCtx) *vfViolation {
 	}
 	defer os.RemoveAll(dir)
 	ctx.Class("vec_kind=" + c.Conf.VecKind)
+	ctx.ClassIf(c.Conf.FlushThr < 1<<30, "background_flush_worker_active")
 	durable := map[uint32]*vfStoreDoc{}
 	everAdded := map[uint32]bool{}
 	var prevHashes map[string]string
@@ -595,6 +619,27 @@ func vfC09Run(c vfC09Case, ctx *vfCtx) *vfViolation {
 			return v
 		}
 		ctx.Class("final_reopen_in_separate_process")
+		// the other process has added, flushed and closed: everything must be here
+		for j := range c.ChildAdds {
+			d := &c.ChildAdds[j]
+			if len(d.Vec) == c.Conf.Dim && d.ID != 0 && !everAdded[d.ID] {
+				everAdded[d.ID] = true
+				durable[d.ID] = d
+				ctx.Class("document_added_by_the_other_process")
+			}
+		}
+		if _, err := os.Stat(filepath.Join(dir, "LOCK")); err == nil {
+			return vfFail("LOCK file left behind by the other process after its Close")
+		}
+		st, err := vfOpenStore(dir, &c.Conf)
+		if err != nil {
+			return vfFail("reopen after the other process closed the store failed: %v", err)
+		}
+		v := vfCheckDurable(st, &c.Conf, durable, everAdded, "reopen after another process added, flushed and closed")
+		st.Close()
+		if v != nil {
+			return v
+		}
 	} else {
 		conf := c.Conf
 		conf.UseAlt = len(c.Sessions)%2 == 1
@@ -632,10 +677,11 @@ type vfC09ChildJob struct {
 	Conf      vfStoreConf            `json:"conf"`
 	Durable   map[uint32]*vfStoreDoc `json:"durable"`
 	EverAdded []uint32               `json:"ever_added"`
+	Adds      []vfStoreDoc           `json:"adds,omitempty"`
 }
 
 func vfC09CheckInChild(dir string, c *vfC09Case, durable map[uint32]*vfStoreDoc, everAdded map[uint32]bool) *vfViolation {
-	job := vfC09ChildJob{Dir: dir, Conf: c.Conf, Durable: durable}
+	job := vfC09ChildJob{Dir: dir, Conf: c.Conf, Durable: durable, Adds: c.ChildAdds}
 	for id := range everAdded {
 		job.EverAdded = append(job.EverAdded, id)
 	}
@@ -681,9 +727,37 @@ func TestVerif_C09Child(t *testing.T) {
 		fmt.Printf("CHILD-VIOLATION: Open failed: %v\n", err)
 		t.FailNow()
 	}
-	defer st.Close()
+	closed := false
+	defer func() {
+		if !closed {
+			st.Close()
+		}
+	}()
 	if v := vfCheckDurable(st, &job.Conf, job.Durable, ever, "child process"); v != nil {
 		fmt.Printf("CHILD-VIOLATION: %s\n", strings.ReplaceAll(v.Msg, "\n", " "))
+		t.FailNow()
+	}
+	for j := range job.Adds {
+		d := &job.Adds[j]
+		if len(d.Vec) != job.Conf.Dim || d.ID == 0 || ever[d.ID] {
+			continue
+		}
+		if _, err := vfStoreAdd(st, &job.Conf, d); err != nil {
+			fmt.Printf("CHILD-VIOLATION: add of document %d in the other process failed: %v\n", d.ID, err)
+			t.FailNow()
+		}
+		ever[d.ID] = true
+		job.Durable[d.ID] = d
+		if j%2 == 0 {
+			if err := st.Flush(); err != nil {
+				fmt.Printf("CHILD-VIOLATION: Flush in the other process failed: %v\n", err)
+				t.FailNow()
+			}
+		}
+	}
+	closed = true
+	if err := st.Close(); err != nil {
+		fmt.Printf("CHILD-VIOLATION: Close in the other process failed: %v\n", err)
 		t.FailNow()
 	}
 }
